@@ -112,6 +112,9 @@ impl Prop for C12 {
     fn id(&self) -> &'static str {
         "C12"
     }
+    fn observes_units(&self) -> bool {
+        false
+    }
     fn rule(&self) -> String {
         "every string over a 40-symbol alphabet (digits, e/E, letters t o m x, operators, brackets, braces, six blank kinds incl. NBSP/U+2003/U+3000, degree sign, apostrophe, 2-4 byte letters, a combining mark, _ = \" \\ and NUL) up to length 5 (quick) / 6 (thorough) through lexer and parser; every sequence of up to 6 whole tokens over a 12-token alphabet (blank, number, word, braces, parentheses, +, to, comma, decimal, *); every string up to length 3 parsed right after a unit string with trailing content went through str::parse::<Compound> on the same thread (5 such strings); long inputs: every sequence of 1..3 whole tokens repeated k times (with and without a blank) and nested k deep inside ten wrappers (balanced and unbalanced parentheses, a call, a dangling operator, braces, a sign, a cast chain) for k in {8,20,31,32,33,34,40,64,100,257}. A case is a 2-symbol prefix whose check enumerates all completions (bulk). Oracle: tokens non-empty, end on character boundaries, cover the input exactly; parse_root succeeds and the childless non-empty nodes of the tree, in order, equal the lexer's (kind,len) sequence and tile the input. Non-trivial = the string lexes into >=2 tokens; distinct by construction (distinct strings)".into()
     }
